@@ -30,6 +30,7 @@ class FnRec:
         self.n_debug_asserts = 0
         self.external_body = False
         self.module = None
+        self.lost = []          # anchors of this function that no longer match (tolerant weave): (key, message, pinned)
 
 
 class Unit:
@@ -53,12 +54,21 @@ class Unit:
 
 
 _sources = {}
+# where function text is taken from: /repo's working tree, or (differential run, DESIGN 11.10) the snapshot of the
+# sources the contracts were written against (contracts/pinned_src)
+SOURCE_ROOT = [REPO]
+PINNED_ROOT = os.path.join(VERIF, 'contracts', 'pinned_src')
+# tolerant weave: a lost proof-hook anchor or rewrite rule is recorded on the function instead of ending the run
+TOLERANT = [True]
+# differential run: {fn addr: set of directive keys to leave out on purpose}
+FORCE_DROP = [{}]
 
 
 def get_source(rel):
-    if rel not in _sources:
-        _sources[rel] = Source(os.path.join(REPO, rel), rel)
-    return _sources[rel]
+    key = (SOURCE_ROOT[0], rel)
+    if key not in _sources:
+        _sources[key] = Source(os.path.join(SOURCE_ROOT[0], rel), rel)
+    return _sources[key]
 
 
 def reset_sources():
@@ -218,8 +228,15 @@ def weave_fn(unit, tmpl_rel, blk):
 
     replaces = [(a, b) for (k, a, b) in blk['replaces']]
     text, fired = rules.apply_global(orig)
-    text, fired2 = rules.apply_local(text, replaces, blk['addr'])
+    lost = [] if TOLERANT[0] else None
+    force_drop = FORCE_DROP[0].get(blk['addr'])
+    text, fired2 = rules.apply_local(text, replaces, blk['addr'], lost, force_drop)
     fired.update(fired2)
+
+    def lose(key, msg, pinned=False):
+        if lost is None:
+            raise ExtractError(msg)
+        lost.append((key, msg, pinned))
     rec.rules = fired
     rec.gen_hash = sha(text)
     if text.count('\n') != orig.count('\n'):
@@ -270,7 +287,29 @@ def weave_fn(unit, tmpl_rel, blk):
     rec.n_debug_asserts = len(re.findall(r'\bdebug_assert(_eq|_ne)?!', body_st))
     inserts = {}   # char offset in body -> list of (lines, kind)  (inserted before that offset)
     want_loops = 0
+    # a changed number of loops makes every loop contract of the function ambiguous: all are left out.  The expected
+    # number is what the contract says (loops=N), else the number of loops of the same function in the pinned sources.
+    loop_secs = [int(arg) for (kind, arg, lines) in blk['sections'] if kind in ('loop', 'loopend')]
+    drop_loops = False
+    expected = int(blk['kv']['loops'][0]) if blk['kv'].get('loops') else None
+    if expected is None and loop_secs and SOURCE_ROOT[0] != PINNED_ROOT and os.path.isdir(PINNED_ROOT):
+        try:
+            psrc = Source(os.path.join(PINNED_ROOT, blk['src']), blk['src'])
+            ps, pe, _, _ = psrc.find_fn(blk['addr'])
+            ptext = rules.apply_global(blank_comments(psrc.text[ps:pe]))[0]
+            expected = len(find_loops(strip_map(split_signature(ptext)[1])))
+        except Exception:
+            expected = None
+    if (loop_secs and max(loop_secs) > len(loops)) or (expected is not None and expected != len(loops)):
+        lose('loops', 'lost anchor: loop contracts of %s (function has %d loops, contract written for %s)' % (blk['addr'], len(loops), expected))
+        drop_loops = True
+    if force_drop is not None and 'loops' in force_drop:
+        drop_loops = True
     for (kind, arg, lines) in blk['sections']:
+        if kind in ('loop', 'loopend') and drop_loops:
+            continue
+        if kind in ('before', 'after', 'beforeeach', 'aftereach') and force_drop is not None and (kind + ':' + arg) in force_drop:
+            continue
         if kind == 'loop':
             n = int(arg)
             want_loops = max(want_loops, n)
@@ -292,8 +331,8 @@ def weave_fn(unit, tmpl_rel, blk):
             # match on original source lines of the body
             hits = [i for i in range(body_first_line, len(orig_lines)) if rx.search(orig_lines[i])]
             if (len(hits) != 1 and not kind.endswith('each')) or len(hits) == 0:
-                raise ExtractError('lost anchor: %s /%s/ in %s matched %d lines'
-                                   % (kind, arg, blk['addr'], len(hits)))
+                lose(kind + ':' + arg, 'lost anchor: %s /%s/ in %s matched %d lines' % (kind, arg, blk['addr'], len(hits)))
+                continue
             body_lines = body.split('\n')
             for h in hits:
                 li = h - body_first_line   # line index within body text
@@ -302,10 +341,7 @@ def weave_fn(unit, tmpl_rel, blk):
     if unit.prologue and 'external_body' not in blk['flags']:
         pt, prel, pln = unit.prologue
         inserts.setdefault(1, []).insert(0, ([('        ' + pt, pln)], 'prologue'))
-    if blk['kv'].get('loops'):
-        if int(blk['kv']['loops'][0]) != len(loops):
-            raise ExtractError('lost anchor: %s has %d loops, contract expects %s'
-                               % (blk['addr'], len(loops), blk['kv']['loops'][0]))
+    rec.lost = lost or []
 
     # emit body, tracking source lines
     cur_line = first_line + sig_nl
@@ -463,10 +499,22 @@ def load_template(unit, path, srcmap, seen=None):
             i += 1
 
 
-def build_unit(name='cfb'):
+def build_unit(name='cfb', pinned=False, force_drop=None):
     """The whole crate is one generated file (one Verus `mod` per source
-    module); checks verify only the modules a property needs."""
+    module); checks verify only the modules a property needs.
+    pinned=True: the function text comes from contracts/pinned_src (the sources the contracts were written against)
+    and the directives listed in force_drop {addr: keys} are left out - the differential run of DESIGN 11.10."""
     reset_sources()
+    SOURCE_ROOT[0] = PINNED_ROOT if pinned else REPO
+    FORCE_DROP[0] = force_drop or {}
+    try:
+        return _build_unit(name)
+    finally:
+        SOURCE_ROOT[0] = REPO
+        FORCE_DROP[0] = {}
+
+
+def _build_unit(name):
     unit = Unit(name)
     path = os.path.join(VERIF, 'contracts', name + '.vc')
     load_template(unit, path, {})
